@@ -125,9 +125,10 @@ type Params struct {
 	MaxGas          int64 // consensus params block max gas (-1 = unlimited)
 	Witnesses       int   // how many genesis validators are ETH witnesses
 	GenesisStake    []int64
-	AcctFunds       int64 // whole OLT per account
-	PoolFunds       int64 // whole OLT in the rewards pool
-	GenesisMatures  int   // number of distinct maturity heights carried by the genesis delegation state (exported-state genesis)
+	AcctFunds       int64                       // whole OLT per account
+	PoolFunds       int64                       // whole OLT in the rewards pool
+	GenesisMatures  int                         // number of distinct maturity heights carried by the genesis delegation state (exported-state genesis)
+	ETH             *ethchain.ChainDriverOption // ETH chain-driver option of the genesis (nil = empty, as before)
 }
 
 func SmallParams(seed uint64) Params {
@@ -210,9 +211,13 @@ func NewWorld(p Params) *World {
 			PassedFundDistribution: dist(18, 18, 18, 18, 10, 18), FailedFundDistribution: dist(10, 10, 10, 20, 50, 0),
 			ProposalExecutionCost: exec}
 	}
+	ethOpt := ethchain.ChainDriverOption{}
+	if p.ETH != nil {
+		ethOpt = *p.ETH
+	}
 	gov := governance.GovernanceState{
 		FeeOption:   fees.FeeOption{FeeCurrency: olt, MinFeeDecimal: 9},
-		ETHCDOption: ethchain.ChainDriverOption{},
+		ETHCDOption: ethOpt,
 		BTCCDOption: bitcoin.ChainDriverOption{ChainType: "testnet3", TotalSupply: "2100000000000000", TotalSupplyAddr: "oneledgerSupplyAddress", BlockConfirmation: 6},
 		ONSOptions: ons.Options{Currency: "OLT", PerBlockFees: *amt("100000000000000"), FirstLevelDomains: []string{"ol"},
 			BaseDomainPrice: *amt("1000000000000000000000")},
